@@ -220,7 +220,7 @@ func (e *svcEnv) finish(label string) {
 		panic(err)
 	}
 	seenIt := false
-	for deadline := time.Now().Add(10 * time.Second); time.Now().Before(deadline) && !seenIt; {
+	for deadline := time.Now().Add(observerWait()); time.Now().Before(deadline) && !seenIt; {
 		e.obsMu.Lock()
 		n := len(e.obs)
 		seenIt = n > 0 && e.obs[n-1].res.Id.Name == "zz" && e.obs[n-1].res.Version == srsp.Resource.Version
@@ -232,6 +232,7 @@ func (e *svcEnv) finish(label string) {
 	e.stop.Store(true)
 	e.owg.Wait()
 	if !seenIt {
+		observerMisses.Add(1)
 		run.Tag("svc:abandoned-observer-incomplete") // overloaded machine: no complete commit order, nothing to judge
 		return
 	}
